@@ -1655,6 +1655,10 @@ impl<'t, 'c> Gen<'t, 'c> {
                     let mut s = vec![0x82, 0x00, 0x58, 0x1c];
                     s.extend(fixed_bytes(self.t.pick(100) as u8, 28));
                     s
+                } else if self.t.chance(1, 10) {
+                    // a script of realistic size: byte strings beyond a few kilobytes travel through the IR too
+                    self.mark("script_of_several_kilobytes");
+                    fixed_bytes(self.t.pick(100) as u8, [4095usize, 4096, 4097, 5000, 16_500][self.t.pick(5)])
                 } else {
                     fixed_bytes(self.t.pick(100) as u8, 4 + self.t.pick(20))
                 };
@@ -1678,6 +1682,10 @@ impl<'t, 'c> Gen<'t, 'c> {
                 for _ in 0..n {
                     let mut version = 1 + self.t.pick(3) as i64;
                     let mut script = fixed_bytes(self.t.pick(100) as u8, 4 + self.t.pick(20));
+                    if self.t.chance(1, 10) {
+                        self.mark("script_of_several_kilobytes");
+                        script = fixed_bytes(self.t.pick(100) as u8, [4095usize, 4096, 4097, 5000, 16_500][self.t.pick(5)]);
+                    }
                     if let Some((v, sc)) = &prev {
                         if self.t.flag() {
                             version = *v;
